@@ -282,9 +282,19 @@ func (w *World) Exec(h History) (obs []Obs) {
 		default:
 			panic("hist: bad op " + op.Kind)
 		}
+		// runaway guard: an observation of more than RunawayLimit bytes (no stream produces
+		// one on purpose) ends the history with a `bad` observation instead of letting a
+		// changed implementation that grows its output from render to render exhaust memory
+		if n := len(obs); n > 0 && len(obs[n-1].Out) > RunawayLimit {
+			obs[n-1] = Obs{Kind: "bad", Msg: fmt.Sprintf("runaway output: %d bytes from operation %s; the rest of the history was not executed", len(obs[n-1].Out), op.Kind)}
+			return obs
+		}
 	}
 	return obs
 }
+
+// RunawayLimit: see Exec.
+const RunawayLimit = 64 << 20
 
 func (w *World) target(n term.Node) interface{} {
 	switch x := n.(type) {
@@ -320,6 +330,11 @@ func (w *World) save(f *jen.File, op Op) (o Obs) {
 	}()
 	err := f.Save(path)
 	if err == nil {
+		// a target that is not a regular file (a device such as /dev/full, reached directly or
+		// through a symbolic link) is not read back: reading a device need not end
+		if fi, serr := os.Stat(path); serr == nil && !fi.Mode().IsRegular() {
+			return Obs{Kind: "save", Path: op.A, Msg: "Save returned nil; the target is not a regular file (" + fi.Mode().String() + ") and was not read back"}
+		}
 		b, rerr := os.ReadFile(path)
 		if rerr != nil {
 			return Obs{Kind: "bad", Msg: "saved file unreadable: " + rerr.Error()}
